@@ -240,10 +240,22 @@ func (v *VLANAllocator) LoadFromStore(ctx context.Context, ntes []*NTE) error {
 	v.mu.Lock()
 	defer v.mu.Unlock()
 
+	var conflict error
 	for _, nte := range ntes {
 		if nte.STag == 0 || nte.CTag == 0 {
 			continue
 		}
+
+		// A VLAN pair identifies exactly one NTE: refuse a stored pair another NTE already holds.
+		if owner, ok := v.sTagUsage[nte.STag][nte.CTag]; ok && owner != nte.ID {
+			if conflict == nil {
+				conflict = fmt.Errorf("VLAN pair (%d,%d) of NTE %s already allocated to NTE %s",
+					nte.STag, nte.CTag, nte.ID, owner)
+			}
+			continue
+		}
+		// Re-loading an NTE replaces its previous pair in both indexes.
+		v.releaseUnlocked(nte.ID)
 
 		alloc := &VLANAllocation{
 			STag:  nte.STag,
@@ -258,7 +270,7 @@ func (v *VLANAllocator) LoadFromStore(ctx context.Context, ntes []*NTE) error {
 		v.sTagUsage[nte.STag][nte.CTag] = nte.ID
 	}
 
-	return nil
+	return conflict
 }
 
 // SyncToNTE updates an NTE with its VLAN allocation.
